@@ -192,7 +192,27 @@ def generate(rng, tier):
         fd = [dict(start=0x100, len=0x40, rows=[(0, suites.std_row(arch, "frameless", 3))])]
         s.module_dwarf("MH2", lo, lo + 0x1000, lo, 0, "hdr", fd, rng, hdr_enc="notable")
         probes += [("hdr-notable", lo + a) for a in (0x100, 0x120, 0x13f, 0x140, 0x800)]
-        s.add("new U"); s.add("add U MH0"); s.add("add U MH1"); s.add("add U MH2")
+        # a Mach-O image whose __unwind_info header and first-level index are fine but whose second-level pages cannot
+        # be read (unknown page kind): its functions have no usable unwind information - frame-pointer convention in
+        # every frame, NOT the leaf assumption made for addresses outside the table (seeded change C04-12 folded the two)
+        import machotruth as mt, struct as _st
+        mprog = mt.make_program(rng, arch, 4)
+        lo = 0x700000
+        mt.module_macho(s, "MBP", mprog, lo, 0x100000000, rng)
+        head, bview = s.lines[-1].split(" B ", 1)
+        bt = bview.split(" ")
+        k = bt.index("__unwind_info")
+        ui = bytearray(bytes.fromhex(bt[k + 1]))
+        idx_off, idx_cnt = _st.unpack_from("<II", ui, 20)
+        for e in range(idx_cnt - 1):
+            page = _st.unpack_from("<I", ui, idx_off + 12 * e + 4)[0]
+            if page:
+                _st.pack_into("<I", ui, page, 7)          # neither 2 (regular) nor 3 (compressed)
+        bt[k + 1] = bytes(ui).hex()
+        s.lines[-1] = head.split(" A ", 1)[0] + " A none B " + " ".join(bt)
+        for f in sorted(mprog["funcs"], key=lambda f: f.start)[:6]:
+            probes += [("macho-badpage", lo + f.start + o) for o in (0, 1 if arch == "x86" else 4, f.length - (1 if arch == "x86" else 4))]
+        s.add("new U"); s.add("add U MH0"); s.add("add U MH1"); s.add("add U MH2"); s.add("add U MBP")
         for reason, a in probes:
             for first in (1, 0):
                 for _ in range(2):
